@@ -101,7 +101,21 @@ def clause_item(item, rec):
         ident = tuple(range(n))
         base = outcome(V, G.clause_render(graph, mask, ident), structs, dps)
         if base[0][0] != "ok" or base[1][0] != "ok":
-            rec.tool_error("clause-reference script invalid: %r -> %s" % (G.clause_render(graph, mask, ident), str(base)[:300]))
+            # the definition-first order fails: a violation if some other order of the same statements works
+            other = None
+            for order in itertools.permutations(range(n)):
+                got = outcome(V, G.clause_render(graph, mask, order), structs, dps)
+                if order != ident and got[0][0] == "ok" and got[1][0] == "ok":
+                    other = order
+                    break
+            if other is None:
+                rec.tool_error("clause-reference script invalid in every order: %r -> %s" % (G.clause_render(graph, mask, ident), str(base)[:300]))
+            else:
+                bad = base[0] if base[0][0] != "ok" else base[1]
+                rec.case(("clause-ref", n, "identity-fails"), "differs")
+                rec.violation("C12:clause-reference:%s:error:%s:%s" % ("structures" if base[0][0] != "ok" else "results", bad[2], bad[3]),
+                              "script %r fails (%s) while the same statements in order %s work" % (G.clause_render(graph, mask, ident), str(bad)[:200], other),
+                              {"kind": "clause", "graph": graph, "order": list(ident)})
             continue
         for order in itertools.permutations(range(n)):
             if order == ident:
